@@ -320,7 +320,45 @@ func opRunBoth(c Case, r Result) {
 	r["file"] = matchesSexp(engine.RunFiles(cp.bc, []string{p}, engine.NOTHING, false))
 }
 
+// glob: {"tree":[["path",isdir],...],"patterns":[...],"absolute":bool}: GetFileList on a scratch tree
+func opGlob(c Case, r Result) {
+	root, err := os.MkdirTemp("", "vh-glob-")
+	if err != nil {
+		panic(err)
+	}
+	defer os.RemoveAll(root)
+	for _, e := range c["tree"].([]any) {
+		pair := e.([]any)
+		p := filepath.Join(root, pair[0].(string))
+		if pair[1].(bool) {
+			os.MkdirAll(p, 0o755)
+		} else {
+			os.MkdirAll(filepath.Dir(p), 0o755)
+			os.WriteFile(p, []byte("x"), 0o644)
+		}
+	}
+	abs, _ := c["absolute"].(bool)
+	outs := [][]string{}
+	for _, pt := range c["patterns"].([]any) {
+		pat := pt.(string)
+		var got []string
+		if abs {
+			got = files.ParsePath(root + "/" + pat).GetFileList("/nonexistent-start-directory")
+		} else {
+			got = files.ParsePath(pat).GetFileList(root)
+		}
+		rel := []string{}
+		for _, g := range got {
+			rel = append(rel, strings.TrimPrefix(filepath.Clean(g), root)) // "//tmp/x" and "/tmp/x" name the same file
+		}
+		outs = append(outs, rel)
+		r["lists"] = outs
+	}
+	r["lists"] = outs
+}
+
 var ops = map[string]func(Case, Result){
+	"glob":    opGlob,
 	"reader":  opReader,
 	"runboth": opRunBoth,
 	"hist":  opHist,
